@@ -290,6 +290,88 @@ def run_swift_multi(args):
     return {'rc': rc, 'stderr': err[-300:], 'files': outs}
 
 
+MULTI_ARGS = {'typescript': [], 'kotlin': ['--java-package', 'com.p'], 'scala': ['--scala-package', 'com.p'], 'go': ['--go-package', 'p'], 'python': []}
+MULTI_CFG = {'typescript': {}, 'kotlin': {'package': 'com.p'}, 'scala': {'package': 'com.p'}, 'go': {'package': 'p'}, 'python': {}}
+
+
+def run_multi(args):
+    """one workspace (crate -> source) through the real binary in folder-output mode"""
+    lang, files = args
+    d = vf.tmpdir()
+    for crate, src in files.items():
+        (d / 'ws' / crate / 'src').mkdir(parents=True)
+        (d / 'ws' / crate / 'src' / 'lib.rs').write_text(src)
+    (d / 'out').mkdir()
+    cmd = ['timeout', '20', str(vf.TYPESHARE), '--lang', lang, '-d', str(d / 'out')] + MULTI_ARGS[lang] + [str(d / 'ws')]
+    try:
+        p = subprocess.run(cmd, capture_output=True, text=True, timeout=30, cwd=d)
+        rc, err = p.returncode, p.stderr
+    except subprocess.TimeoutExpired:
+        rc, err = 124, ''
+    outs = {f.name: f.read_text() for f in sorted((d / 'out').glob('*'))}
+    return {'rc': rc, 'stderr': err[-300:], 'files': outs}
+
+
+def multi_file_all(chk, rng):
+    """Folder-output mode, every language but Swift (handled above): each crate's file must define or import every helper it
+    uses - whatever the OTHER crates of the run contain (generator state carried from one file to the next)."""
+    nm = 10 if chk.tier == 'quick' else 120
+    jobs, meta = [], []
+    for k in range(nm):
+        for lang in ('python', 'go', 'kotlin', 'scala'):
+            crates = {}
+            for c in ['alpha', 'beta', 'gamma'][:rng.randint(2, 3)]:
+                src, info = program(rng, lang)
+                # no two crates may define the same type: prefix the item names with the crate
+                crates[c] = (src, info)
+            # every other workspace ends with a crate that needs no helper at all
+            if k % 2 == 0:
+                crates['zeta'] = ('#[typeshare]\npub struct Plain {\n    pub flag: bool,\n    pub name: String,\n}\n', {'generics': [], 'positions': [], 'triggers': []})
+            jobs.append((lang, {c: v[0] for c, v in crates.items()}))
+            meta.append((lang, crates))
+    if not chk.cli_ok:
+        return
+    with concurrent.futures.ThreadPoolExecutor(max_workers=vf.NPROC) as ex:
+        outs = list(ex.map(run_multi, jobs))
+    # classification of each crate's source by the model (dom / known), as for single files
+    flat = [{'lang': lang, 'cfg': MULTI_CFG[lang], 'src': src, 'info': info} for lang, crates in meta for _, (src, info) in sorted(crates.items())]
+    cls = evaluate(chk, flat)
+    ci = 0
+    for (lang, crates), o in zip(meta, outs):
+        chk.evaluations += 1
+        chk.count(f'multi_runs_{lang}')
+        per = {}
+        for cname, (src, info) in sorted(crates.items()):
+            per[cname] = cls[ci]; ci += 1
+        if o['rc'] != 0:
+            chk.count(f'multi_rc_{o["rc"]}_{lang}')
+            continue
+        ext = {'python': 'py', 'go': 'go', 'kotlin': 'kt', 'scala': 'scala', 'typescript': 'ts'}[lang]
+        for cname, (src, info) in sorted(crates.items()):
+            text = o['files'].get(f'{cname}.{ext}')
+            if text is None:
+                continue
+            u, d = obs_text(lang, text, info['generics'])
+            good = vf.model([f'(c12_good {Lst(u, S)} {Lst(d, S)})'])[0] == 'true'
+            single = per[cname]
+            if u:
+                chk.nontrivial.add(('multi', lang, cname, src))
+            payload = {'lang': lang, 'mode': 'multi-file (-d)', 'workspace': {c: v[0] for c, v in crates.items()}, 'crate': cname, 'uses': u, 'defs': d,
+                       'output': text, 'single_file_observation': single.get('impl'), 'known': single.get('known'), 'dom': single.get('dom')}
+            if good:
+                chk.count('multi_good_' + lang)
+                continue
+            undefined = sorted(set(u) - set(d))
+            if not single.get('dom'):
+                chk.count('multi_outside_dom_not_good'); continue
+            if single.get('known') is not None and single.get('impl') and single['impl'][0] == 'ok' and set(undefined) <= set(single['impl'][1]) - set(single['impl'][2]):    # (state carried over from earlier crates may define some of them by accident)
+                if not chk.known(single['known'], payload):
+                    chk.violation(f'multi-{lang}-{chk.evaluations}-{cname}', payload, f'multi-file {lang}: {undefined} undefined in {cname}.{ext}; class {single["known"]} is not an open finding')
+                continue
+            chk.violation(f'multi-{lang}-{chk.evaluations}-{cname}', payload,
+                          f'multi-file {lang}: {cname}.{ext} uses {undefined} without defining or importing them (the same crate alone generates {single.get("impl")})')
+
+
 # ------------------------------------------------------------------------------------------------ the check
 def cases_for(rng, n):
     cases = []
@@ -450,6 +532,7 @@ def run(chk):
                 chk.violation(f'multi-{chk.evaluations}', {'files': files, 'prefix': prefix, 'outputs': o['files'], 'uses_in': sorted(uses), 'defs': sorted(defs)},
                               'multi-file Swift: CodableVoid is used by ' + ', '.join(sorted(uses)) + ' but Codable.swift does not define it' if not judged
                               else 'multi-file Swift: CodableVoid defined outside Codable.swift')
+    multi_file_all(chk, rng)
     chk.count('correspondence_mismatches', len(corr))
     if corr and not [v for v in chk.violations if not v[2]]:
         chk.violation('correspondence', {'correspondence': 'extracted c12_<lang>_observe (Model.Lang.* declarations + Spec.C12Spec readers) vs the helper uses/definitions read from the real generated text',
